@@ -118,6 +118,76 @@ func noMatchBefore(fl *Flow, at ssa.Instruction, isList func(string) bool, match
 	if idiom != "" {
 		return idiom
 	}
+	// idiom A': the slices search sits in a boolean helper of the package (`func (s *T) has(view, id) bool { return
+	// slices.ContainsFunc(s.list, func(e) bool {...}) }`) whose result is known to be false here
+	eachInstr(fn, func(in ssa.Instruction) {
+		call, ok := in.(*ssa.Call)
+		if !ok || idiom != "" {
+			return
+		}
+		hf := call.Call.StaticCallee()
+		if hf == nil || hf == fn || hf.Blocks == nil || hf.Synthetic != "" || funcPkgPath(hf) != funcPkgPath(fn) || !facts[Fact{"false", fl.K.Key(call), ""}] {
+			return
+		}
+		rets := returnsOf(hf)
+		if len(rets) != 1 || len(rets[0].Results) != 1 {
+			return
+		}
+		inner, ok := rets[0].Results[0].(*ssa.Call)
+		if !ok || inner.Call.StaticCallee() == nil || !strings.HasPrefix(inner.Call.StaticCallee().String(), "slices.ContainsFunc") || len(inner.Call.Args) != 2 {
+			return
+		}
+		hfl := NewFlow(fl.P, hf)
+		args := make([]string, len(call.Call.Args))
+		for i, a := range call.Call.Args {
+			args[i] = fl.K.Key(a)
+		}
+		toCaller := func(k string) string {
+			return normSel(paramRe.ReplaceAllStringFunc(k, func(m string) string {
+				i := 0
+				for _, ch := range m[1:] {
+					i = i*10 + int(ch-'0')
+				}
+				if i < len(args) {
+					return args[i]
+				}
+				return m
+			}))
+		}
+		if !isList(paramRe.ReplaceAllStringFunc(hfl.K.Key(inner.Call.Args[0]), func(m string) string {
+			i := 0
+			for _, ch := range m[1:] {
+				i = i*10 + int(ch-'0')
+			}
+			if i < len(args) {
+				return args[i]
+			}
+			return m
+		})) {
+			return
+		}
+		pf, ok := predicateFacts(hfl, inner.Call.Args[1])
+		if !ok {
+			return
+		}
+		conv := make([]Fact, 0, len(pf))
+		for _, f := range pf {
+			g := Fact{f.Op, toCaller(f.L), ""}
+			if f.R != "" {
+				g.R = toCaller(f.R)
+			}
+			if (g.Op == "==" || g.Op == "!=") && g.L > g.R {
+				g.L, g.R = g.R, g.L
+			}
+			conv = append(conv, g)
+		}
+		if match(conv, "elem") {
+			idiom = "slices search in a boolean helper"
+		}
+	})
+	if idiom != "" {
+		return idiom
+	}
 	// idiom B: explicit loop over the list with an exit on the hit
 	var elems []string
 	eachInstr(fn, func(in ssa.Instruction) {
